@@ -229,57 +229,74 @@ func C16(tier Tier) int {
 	Parallel(len(seqs), func(wk, si int) {
 		e := ws[wk]
 		seq := seqs[si]
-		cfg := ledgerEnv(2)
-		cfg.Schedule = world.PrimeSchedule(0) // construction schedule S1
-		env, err := world.NewEnv(cfg)
-		if err != nil {
-			panic(err)
-		}
-		envs[wk] = env
-		inForce := world.PrimeSchedule(0)
-		inForceName := "S1(construction)"
-		label := ""
-		for _, idx := range seq {
-			ns := alphabet[idx]
-			env.ChangeSchedule(ns.s)
-			label += ns.name + ";"
-			if scheduleValid(ns.s) {
-				inForce, inForceName = ns.s, ns.name
+		// variant 0: every function active from the start; variant 1: the epoch-gated functions are
+		// still inactive (activation epoch 1, epoch 0 confirmed) while the schedule changes arrive
+		// and are activated afterwards - the prices in force must be the same
+		for variant := 0; variant < 2; variant++ {
+			cfg := ledgerEnv(2)
+			cfg.Schedule = world.PrimeSchedule(0) // construction schedule S1
+			if variant == 1 {
+				if len(seq) == 0 {
+					continue
+				}
+				cfg.ActivationEpoch = 1
 			}
-		}
-		perWorker[wk][inForceName] = true
-		for _, pc := range classes {
-			act := pc.act
-			act.Gas = gas
-			_, legs := env.Step(baseWorld, act)
-			l := legs[0]
-			if !l.OK() {
-				e.Fail(P, "pricing", pc.name+":class-failed", fmt.Sprintf("after [%s] the class %s no longer succeeds: %v %v", label, pc.name, l.Err, l.Panic), "case", label+pc.name)
-				continue
+			env, err := world.NewEnv(cfg)
+			if err != nil {
+				panic(err)
 			}
-			forwarded := uint64(0)
-			for _, m := range l.Outs {
-				forwarded += m.GasLimit
+			envs[wk] = env
+			inForce := world.PrimeSchedule(0)
+			inForceName := "S1(construction)"
+			label := ""
+			if variant == 1 {
+				label = "(inactive until after the changes) "
 			}
-			consumed := gas - l.Out.GasRemaining - forwarded
-			times := pc.times
-			if times == 0 {
-				times = 1
+			for _, idx := range seq {
+				ns := alphabet[idx]
+				env.ChangeSchedule(ns.s)
+				label += ns.name + ";"
+				if scheduleValid(ns.s) {
+					inForce, inForceName = ns.s, ns.name
+				}
 			}
-			want := times*builtin(inForce, pc.field) + pc.extra(inForce, l)
-			if consumed != want {
-				// which schedule/field would explain the charge?
-				hint := ""
-				for _, ns := range alphabet[:6] {
-					for _, f := range world.BuiltInFields {
-						if times*builtin(ns.s, f)+pc.extra(ns.s, l) == consumed {
-							hint = fmt.Sprintf(" (it equals the charge under %s with field %s)", ns.name, f)
+			if variant == 1 {
+				env.ConfirmEpoch(1)
+			}
+			perWorker[wk][inForceName] = true
+			for _, pc := range classes {
+				act := pc.act
+				act.Gas = gas
+				_, legs := env.Step(baseWorld, act)
+				l := legs[0]
+				if !l.OK() {
+					e.Fail(P, "pricing", pc.name+":class-failed", fmt.Sprintf("after [%s] the class %s no longer succeeds: %v %v", label, pc.name, l.Err, l.Panic), "case", label+pc.name)
+					continue
+				}
+				forwarded := uint64(0)
+				for _, m := range l.Outs {
+					forwarded += m.GasLimit
+				}
+				consumed := gas - l.Out.GasRemaining - forwarded
+				times := pc.times
+				if times == 0 {
+					times = 1
+				}
+				want := times*builtin(inForce, pc.field) + pc.extra(inForce, l)
+				if consumed != want {
+					// which schedule/field would explain the charge?
+					hint := ""
+					for _, ns := range alphabet[:6] {
+						for _, f := range world.BuiltInFields {
+							if times*builtin(ns.s, f)+pc.extra(ns.s, l) == consumed {
+								hint = fmt.Sprintf(" (it equals the charge under %s with field %s)", ns.name, f)
+							}
 						}
 					}
+					e.Fail(P, "pricing", pc.name+":charge", fmt.Sprintf("after the schedule changes [%s] (in force: %s) %s consumed %d gas, its own entry %s and per-byte components give %d%s", label, inForceName, pc.name, consumed, pc.field, want, hint), "case", label+pc.name)
 				}
-				e.Fail(P, "pricing", pc.name+":charge", fmt.Sprintf("after the schedule changes [%s] (in force: %s) %s consumed %d gas, its own entry %s and per-byte components give %d%s", label, inForceName, pc.name, consumed, pc.field, want, hint), "case", label+pc.name)
+				e.Case(fmt.Sprintf("charge:%s:%s:v%d", pc.name, inForceName, variant))
 			}
-			e.Case(fmt.Sprintf("charge:%s:%s", pc.name, inForceName))
 		}
 	})
 	for _, m := range perWorker {
